@@ -83,6 +83,18 @@ func c05Catalogue(gwNS string, plus bool) []c05Exotic {
 				{Filters: []gatewayv1.HTTPRouteFilter{
 					{Type: gatewayv1.HTTPRouteFilterURLRewrite, URLRewrite: &gatewayv1.HTTPURLRewriteFilter{Hostname: helpers.GetPointer[gatewayv1.PreciseHostname]("x.example.com")}},
 					{Type: gatewayv1.HTTPRouteFilterRequestRedirect, RequestRedirect: &gatewayv1.HTTPRequestRedirectFilter{StatusCode: helpers.GetPointer(301)}}}}}}}},
+		// one path as PathPrefix with conditions, as Exact and as PathPrefix with a trailing slash, on one hostname: the
+		// PathPrefix rule then contributes no external location of its own
+		{"route-path-triple", &gatewayv1.HTTPRoute{ObjectMeta: meta(gwNS, "x-triple"), Spec: gatewayv1.HTTPRouteSpec{
+			CommonRouteSpec: gatewayv1.CommonRouteSpec{ParentRefs: []gatewayv1.ParentReference{{Name: "gw"}}},
+			Rules: []gatewayv1.HTTPRouteRule{
+				{Matches: []gatewayv1.HTTPRouteMatch{{Path: &gatewayv1.HTTPPathMatch{Type: helpers.GetPointer(gatewayv1.PathMatchPathPrefix), Value: helpers.GetPointer("/triple")},
+					Method: helpers.GetPointer(gatewayv1.HTTPMethodPost)}}, BackendRefs: []gatewayv1.HTTPBackendRef{be("svc-a", 80)}},
+				{Matches: []gatewayv1.HTTPRouteMatch{{Path: &gatewayv1.HTTPPathMatch{Type: helpers.GetPointer(gatewayv1.PathMatchExact), Value: helpers.GetPointer("/triple")}}},
+					BackendRefs: []gatewayv1.HTTPBackendRef{be("svc-a", 80)}},
+				{Matches: []gatewayv1.HTTPRouteMatch{{Path: &gatewayv1.HTTPPathMatch{Type: helpers.GetPointer(gatewayv1.PathMatchPathPrefix), Value: helpers.GetPointer("/triple/")}}},
+					BackendRefs: []gatewayv1.HTTPBackendRef{be("svc-a", 80)}},
+			}}}},
 		{"snippetsfilter", &ngfAPIv1alpha1.SnippetsFilter{ObjectMeta: meta(gwNS, "sf"), Spec: ngfAPIv1alpha1.SnippetsFilterSpec{Snippets: []ngfAPIv1alpha1.Snippet{
 			{Context: ngfAPIv1alpha1.NginxContextHTTPServerLocation, Value: "add_header X-S 1;"},
 			{Context: ngfAPIv1alpha1.NginxContextHTTPServer, Value: "client_body_buffer_size 8k;"},
